@@ -110,6 +110,23 @@ def theorem_names_in(path: Path) -> list[tuple[int, str]]:
     return res
 
 
+def import_closure(modules: list[str]) -> list[Path]:
+    """source files of `modules` and of every PyxelModel module they (transitively) import"""
+    seen: dict[str, Path] = {}
+    todo = list(modules)
+    while todo:
+        m = todo.pop()
+        if m in seen or not m.startswith("PyxelModel"):
+            continue
+        f = LEAN / (m.replace(".", "/") + ".lean")
+        if not f.exists():
+            continue
+        seen[m] = f
+        for imp in re.findall(r"^\s*(?:public\s+)?import\s+(PyxelModel[\w.]*)", f.read_text(), re.M):
+            todo.append(imp)
+    return [seen[k] for k in sorted(seen)]
+
+
 class Obligations:
     """Result of building + auditing the property's theorem modules."""
 
@@ -145,8 +162,8 @@ def check_obligations(pid: str, prop_modules: list[str], support_modules: list[s
     ok, log = lake_build(prop_modules)
     ob.build_log = log
     ob.build_ok = ok
-    # forbidden tokens (comments stripped) in every library file the property depends on: scan whole lib
-    for f in sorted((LEAN / "PyxelModel").rglob("*.lean")):
+    # forbidden tokens (comments stripped) in every library file the property's modules (transitively) import
+    for f in import_closure(prop_modules + support_modules):
         txt = strip_lean_comments(f.read_text())
         if f.name == "Audit.lean":
             continue
